@@ -21,15 +21,17 @@ def one(name):
     sd = os.path.join(VERIF, "seeded", name)
     meta = json.load(open(os.path.join(sd, "meta.json")))
     tried = [t for t in meta.get("tried", []) if t.get("detected")]
-    if not tried:
-        return {"status": "no recorded detecting check"}
-    check, tier = tried[-1]["check"], tried[-1]["tier"]
+    plan = [(tried[-1]["check"], tried[-1]["tier"])] if tried else []
+    # fall back to the seed's own property, quick then thorough (also used when the recorded check no longer fires)
+    for cand in ((meta["property"], "quick"), (meta["property"], "thorough")):
+        if cand not in plan:
+            plan.append(cand)
     wt = os.path.join(WT, name)
     sh("git -C /repo worktree remove --force %s" % wt)
     shutil.rmtree(wt, ignore_errors=True)
     os.makedirs(WT, exist_ok=True)
     rc, o = sh("git -C /repo worktree add --detach %s HEAD" % wt)
-    res = {"check": check, "tier": tier}
+    res = {}
     try:
         rc, o = sh("git apply --3way %s" % os.path.join(sd, "patch.diff"), cwd=wt)
         if rc != 0:
@@ -37,10 +39,15 @@ def one(name):
         if rc != 0 or "conflict" in o.lower():
             res.update(status="patch no longer applies", detail=o[-400:])
             return res
-        t = time.time()
-        rc, o = sh("./vf check %s --tier %s" % (check, tier), cwd=VERIF, env={"VERIF_REPO": wt})
-        lines = [l for l in o.splitlines() if l.startswith(("VIOLATION", "  ->", "[" + check))]
-        res.update(status="ran", rc=rc, detected=(rc == 1), secs=round(time.time() - t), first=lines[:4], verdict=[l for l in lines if l.startswith("[")][-1:])
+        res["attempts"] = []
+        for check, tier in plan:
+            t = time.time()
+            rc, o = sh("./vf check %s --tier %s" % (check, tier), cwd=VERIF, env={"VERIF_REPO": wt})
+            lines = [l for l in o.splitlines() if l.startswith(("VIOLATION", "  ->", "[" + check, "INCONCLUSIVE"))]
+            res["attempts"].append({"check": check, "tier": tier, "rc": rc, "secs": round(time.time() - t)})
+            res.update(status="ran", check=check, tier=tier, rc=rc, detected=(rc == 1), first=lines[:4], verdict=[l for l in lines if l.startswith("[")][-1:])
+            if rc == 1:
+                break
         return res
     finally:
         key = hashlib.sha1(wt.encode()).hexdigest()[:8]
